@@ -24,6 +24,14 @@ def term(c, op, lit):
     return "%s %s %s" % (c, op, LIT[lit])
 
 
+MIRROR = {">": "<", ">=": "<=", "<": ">", "<=": ">=", "==": "==", "!=": "!="}
+
+
+def rterm(c, op, lit):
+    """the same comparison written literal-first"""
+    return "%s %s %s" % (LIT[lit], MIRROR[op], c)
+
+
 def sqlop(op):
     return "=" if op == "==" else op
 
@@ -47,7 +55,7 @@ def run(tier):
         seen.add(key)
         flat = term("x", p["op"], p["lit"])
         sc = {"meta": {"fam": "fast", "op": p["op"], "lit": p["lit"], "kind": p["kind"], "handled": p["handled"]}, "flat": flat, "general": "(" + flat + ")",
-              "rows": [row({"x": p["kind"]})]}
+              "rows": [row({"x": p["kind"]})], "alt": [rterm("x", p["op"], p["lit"])]}
         if p["lit"] != "big" or True:
             sc["sql"] = "SELECT * FROM stream WHERE x %s %s" % (sqlop(p["op"]), LIT[p["lit"]])
         scen.append(sc)
@@ -73,7 +81,13 @@ def run(tier):
             ks = {c: (rng.choice(["int", "f64", "f64int", "text", "numstr"]) if rng.random() < 0.6 else rng.choice(kinds)) for c in cols}
             rows.append(row(ks))
         sqlw = flat.replace("&&", "AND").replace("||", "OR").replace("==", "=")
-        scen.append({"meta": {"fam": "fast", "style": style}, "flat": flat, "general": gen, "rows": rows, "sql": "SELECT * FROM stream WHERE " + sqlw})
+        alt = rterm(*terms[0])
+        for cn, t in zip(conns, terms[1:]):
+            alt += " %s %s" % (cn, rterm(*t) if rng.random() < 0.7 else term(*t))
+        sc = {"meta": {"fam": "fast", "style": style}, "flat": flat, "general": gen, "rows": rows, "sql": "SELECT * FROM stream WHERE " + sqlw, "alt": [alt]}
+        if len(scen) % 10 == 0:
+            sc["conc"] = 8          # several goroutines evaluate the compiled predicates at once
+        scen.append(sc)
     seqfam.run_scenarios(res, scen, "TraceFastPath", tag="fast", sub="cond")
     res.cov["exhaustive"] = True
     res.cov["distinct_nontrivial"] = len({s["flat"] + json.dumps(s["rows"], sort_keys=True) for s in scen})
